@@ -15,7 +15,7 @@ REQUIRED = ['cw_exact', 'cw_none', 'cw_unique',
             'smith_is_least_dominating', 'schwartz_is_union_of_minimal_undominated',
             'smith_nodup', 'schwartz_nodup', 'smith_of_cw', 'schwartz_subset_smith', 'dominating_iff', 'undominated_iff']
 UNPROVED = []
-NAME_MODES = ['str', 'int0', 'empty0', 'person']
+NAME_MODES = ['str', 'int0', 'empty0', 'person', 'tuple']
 REQUIRED_COUNTERS = ['fully_tied_pair', 'mutually_tied_unbeaten', 'missing_pair', 'missing_reverse', 'has_cw', 'cycle',
                      'from_ranked', 'all_tied', 'fraction',
                      # generator audit (GENERATOR_CHECKLIST.md)
